@@ -58,11 +58,12 @@ type Ctx struct {
 	notes   []string
 	trusted map[string]bool
 
-	wantControls []string
-	termMemo     map[ssa.Value]string
-	termBusy     map[ssa.Value]bool
-	tableCovered map[string]string // function name -> key of the finite table that walked it and passed
-	eff          *effects
+	wantControls     []string
+	termMemo         map[ssa.Value]string
+	termBusy         map[ssa.Value]bool
+	rangeCheckerMemo map[*ssa.Function]bool
+	tableCovered     map[string]string // function name -> key of the finite table that walked it and passed
+	eff              *effects
 }
 
 func (c *Ctx) add(o Obligation) {
